@@ -689,6 +689,14 @@ def exit_never_swallows_clause(ctx, res, prop, cid, floor=1):
                not (isinstance(r.value, ast.Constant) and r.value.value in (None, False))]
         c.instance('%s.__exit__ returns None / False' % k.name, ex.qualname, not bad)
         c.evaluations += 1
+        # leaving the with block releases: every normal path of __exit__ passes the class's close()
+        if k.lookup('close') is not None:
+            okc, at = every_return_passes(ex.node, lambda x: isinstance(x, ast.Call) and self_attr(x.func) == 'close')
+            c.instance('%s.__exit__ calls close() on every path' % k.name, ex.qualname, okc)
+            if not okc:
+                res.add(Finding(prop, cid, 'R-CONTAIN', ex.file, ex.qualname, getattr(at, 'lineno', ex.node.lineno), 'path of __exit__ without close()',
+                                '%s.__exit__ can return without calling close(): a cassette used through `with` (again) keeps its resources - pending '
+                                'recordings are not flushed, the worker thread is not joined' % k.name))
         for r in bad[:1]:
             res.add(Finding(prop, cid, 'R-CONTAIN', ex.file, ex.qualname, r.lineno, norm(r)[:100],
                             '%s.__exit__ returns `%s`: a truthy value tells Python to suppress the exception raised inside the with block, so a failing '
@@ -754,4 +762,19 @@ def one_shot_results_read_twice(cls):
                         groups.append([r])
                 if len(groups) > 1:
                     out.append((m, nm, reads, producers[self_attr(n.value.func)]))
+    return out
+
+
+def fragile_handler_steps(handler):
+    """steps of an isolating `except ... as ex` handler that can fail on their own for some caught exception: indexing (`ex.args[0]` of an
+    exception raised without arguments, a missing key) and attributes of the caught exception that not every exception has. A failure there
+    replaces the containment by a new exception. Returns the offending nodes"""
+    out = []
+    for st_ in handler.body:
+        for n in ast.walk(st_):
+            if isinstance(n, ast.Subscript) and isinstance(n.ctx, ast.Load):
+                out.append(n)
+            elif isinstance(n, ast.Attribute) and isinstance(n.ctx, ast.Load) and isinstance(n.value, ast.Name) and handler.name and n.value.id == handler.name and \
+                    n.attr not in ('args', '__class__', '__traceback__', '__cause__', '__context__', 'with_traceback', '__doc__', '__dict__'):
+                out.append(n)
     return out
